@@ -72,10 +72,12 @@ package pcs
 //@ func extractAsn1OctetStringExtension(name, extension, size) (r, err)
 
 //@ func extractSgxExtensions(extensions) (r, err)
+//@   fresh r
 //@   at Unmarshal: requires[fresh-decode-target] pristine(arg1)
 //@   ensures[ok] err == nil ==> r != nil && len(extensions) >= 4
 
 //@ func PckCertificateExtensions(cert) (r, err)
+//@   fresh r
 //@   at Unmarshal: requires[fresh-decode-target] pristine(arg1)
 //@   records pckext
 //@   requires cert != nil
